@@ -337,6 +337,12 @@ class PermutationVariable(Variable):
         return lb.tolist(), ub.tolist()
 
     def correct(self, value: tuple | list | np.ndarray) -> list[int]:
+        # a permutation of the item indexes is already a member of the domain and is left unchanged (so that correct
+        # is idempotent and evaluation and decoding see the same order); any other vector is ranked (random keys)
+        candidate = np.asarray(value)
+        n_items = len(self.items)
+        if candidate.shape == (n_items,) and np.array_equal(np.sort(candidate), np.arange(n_items)):
+            return candidate.astype(int).tolist()
         return np.argsort(value).tolist()
 
     def decode(self, value: tuple | list | np.ndarray) -> Any:
